@@ -2946,7 +2946,7 @@ namespace awkward {
                     current_error_ = util::ForthError::stack_overflow;         \
                     return;                                                    \
                   }                                                            \
-                  stack_push((I)value);                                        \
+                  stack_push((T)value);                                        \
                 }                                                              \
                 break;                                                         \
               }
@@ -2972,7 +2972,7 @@ namespace awkward {
                     current_error_ = util::ForthError::stack_overflow;         \
                     return;                                                    \
                   }                                                            \
-                  stack_push((I)value);                                        \
+                  stack_push((T)value);                                        \
                 }                                                              \
                 break;                                                         \
               }
@@ -3410,7 +3410,7 @@ namespace awkward {
                 current_error_ = util::ForthError::stack_overflow;
                 return;
               }
-              stack_push((I)do_i());
+              stack_push((T)do_i());
               break;
             }
 
@@ -3419,7 +3419,7 @@ namespace awkward {
                 current_error_ = util::ForthError::stack_overflow;
                 return;
               }
-              stack_push((I)do_j());
+              stack_push((T)do_j());
               break;
             }
 
@@ -3428,7 +3428,7 @@ namespace awkward {
                 current_error_ = util::ForthError::stack_overflow;
                 return;
               }
-              stack_push((I)do_k());
+              stack_push((T)do_k());
               break;
             }
 
